@@ -87,7 +87,80 @@ def oracle(rows, header, limit, nkeys, checks, register="accepted", key_ok=None)
 POOL = ["a", "a, b", "c", "b, c"]  # texts that collide when key parts are joined with ', '
 
 
-def make(nkeys, nrows, checks, check_rows, fixed_keys=None, twice=False, sym_vals=True, alphabet=(97, 99), keymode="choice"):
+SEPARATORS = ["", " ", ",", ", ", "|", ";", ":", "/", "-", "_", "\t", "\x00", "\x1f", "', '", "','", '", "', "\n", "\\", "+", "#"]
+
+
+def native_key_collisions(key="unique-distinct"):
+    """concrete: composite keys that differ as tuples but coincide once their parts are joined with some separator,
+    rendered with str()/repr(), or compared ignoring case / surrounding blanks are different keys (both rows accepted);
+    equal tuples are duplicates.  Exploration over a finite list of separators, not a solver verdict."""
+    import io
+    from cutplace import interface, validio, errors
+    failures = []
+    n = 0
+    text = "d,format,delimited\nf,k0\nf,k1\nf,k2,,X\nc,u,IsUnique,\"k0, k1\"\n"
+    text3 = "d,format,delimited\nf,k0\nf,k1\nf,k2,,X\nc,u,IsUnique,\"k0, k1, k2\"\n"
+    pairs = []
+    for sep in SEPARATORS:
+        pairs.append((text, ["a", "b" + sep + "c", ""], ["a" + sep + "b", "c", ""], False))
+        pairs.append((text3, ["a", "b" + sep + "c", "d"], ["a" + sep + "b", "c", "d"], False))
+        pairs.append((text3, ["a", "b", "c" + sep + "d"], ["a", "b" + sep + "c", "d"], False))
+    pairs += [(text, ["a", "B", ""], ["a", "b", ""], False), (text, ["a ", "b", ""], ["a", "b", ""], False),
+              (text, ["a", " b", ""], ["a", "b", ""], False), (text, ["1", "2", ""], ["01", "2", ""], False),
+              (text, ["1", "2", ""], ["1", "2.0", ""], False), (text, ["a", "b", "x"], ["a", "b", "y"], True),
+              (text3, ["a", "b", "x"], ["a", "b", "y"], False), (text3, ["a", "b", ""], ["a", "b", ""], True),
+              (text, ["\u00df", "b", ""], ["ss", "b", ""], False), (text, ["\u00e9", "b", ""], ["e\u0301", "b", ""], False),
+              (text, ["None", "b", ""], ["", "b", ""], False)]
+    for cid_text, r1, r2, dup in pairs:
+        if not r1[0] or not r1[1] or not r2[0] or not r2[1]:
+            continue
+        n += 1
+        try:
+            cid = interface.create_cid_from_string(cid_text)
+            with patched(*rf.srows_patches()):
+                got = list(validio.rows(cid, [r1, r2], on_error="yield"))
+            second_rejected = len(got) == 2 and isinstance(got[1], errors.CheckError)
+            first_ok = len(got) >= 1 and got[0] == r1
+            if not first_ok or second_rejected != dup or (not dup and got[1] != r2):
+                failures.append(dict(key=key, what="IsUnique over %s: rows %r and %r -> %r; expected the second row to be %s" % (
+                    "k0,k1,k2" if cid_text is text3 else "k0,k1", r1, r2, got, "rejected as duplicate" if dup else "accepted"),
+                    args=dict(rows=[r1, r2])))
+        except Exception as e:  # noqa
+            failures.append(dict(key=key, what="IsUnique: rows %r and %r raised %s: %s" % (r1, r2, type(e).__name__, e),
+                                 args=dict(rows=[r1, r2])))
+    # the fields a check names are the fields of exactly that name (names differing in case are different fields)
+    base = "d,format,delimited\nf,code\nf,Code\n"
+    named = [(base + "c,u,IsUnique,Code\n", [["a", "x"], ["a", "y"]], [True, True], False),
+             (base + "c,u,IsUnique,Code\n", [["a", "x"], ["b", "x"]], [True, False], False),
+             (base + "c,u,IsUnique,code\n", [["a", "x"], ["b", "x"]], [True, True], False),
+             (base + "c,u,IsUnique,code\n", [["a", "x"], ["a", "y"]], [True, False], False),
+             (base + "c,d,DistinctCount,Code <= 1\n", [["a", "x"], ["b", "x"]], [True, True], False),
+             (base + "c,d,DistinctCount,Code <= 1\n", [["a", "x"], ["a", "y"]], [True, True], True),
+             (base + "c,d,DistinctCount,code <= 1\n", [["a", "x"], ["a", "y"]], [True, True], False),
+             (base + "c,u,IsUnique,\"Code, code\"\n", [["a", "b"], ["b", "a"]], [True, True], False)]
+    for cid_text, rows, verdicts, end_fails in named:
+        n += 1
+        try:
+            cid = interface.create_cid_from_string(cid_text)
+            with patched(*rf.srows_patches()):
+                reader = validio.Reader(cid, rows, on_error="yield")
+                got = [not isinstance(r, errors.DataError) for r in reader.rows()]
+                try:
+                    reader.close()
+                    failed = False
+                except errors.CheckError:
+                    failed = True
+            if got != verdicts or failed != end_fails:
+                failures.append(dict(key=key, what="fields code/Code with check %r: rows %r -> accepted %r, end fails %s; expected %r, %s" % (
+                    cid_text.splitlines()[-1], rows, got, failed, verdicts, end_fails), args=dict(cid=cid_text, rows=rows)))
+        except Exception as e:  # noqa
+            failures.append(dict(key=key, what="fields code/Code with check %r raised %s: %s" % (
+                cid_text.splitlines()[-1], type(e).__name__, e), args=dict(cid=cid_text)))
+    return dict(count=n, failures=failures, samples=[])
+
+
+def make(nkeys, nrows, checks, check_rows, fixed_keys=None, twice=False, sym_vals=True, alphabet=(97, 99), keymode="choice",
+         api="reader"):
     """keymode 'choice': key cells are single letters of a Choice a/b field; 'int': Integer key fields whose cells are
     digit texts ('7' and '07' are different keys: checks see the text); 'pool': Text key fields whose cells are picked
     (by a symbolic index) from POOL"""
@@ -107,6 +180,24 @@ def make(nkeys, nrows, checks, check_rows, fixed_keys=None, twice=False, sym_val
         rf.set_header(cid, header)
         exp, exp_fail = oracle(rows, header, lim, nkeys, checks, key_ok=key_ok)
         why = ""
+        if api == "validate":
+            # the validate-only API: raises the first row error, else the end-of-data error, else returns
+            first = None
+            for e in exp:
+                if e[0] == "err" and first is None:
+                    first = e
+            raised = None
+            with patched(rf.smart_repr(), *rf.srows_patches()):
+                try:
+                    validio.validate(cid, rows, validate_until=lim)
+                except errors.DataError as error:
+                    raised = error
+            if first is not None:
+                ok = raised is not None and raised.location is not None and raised.location.line == first[1]
+            else:
+                ok = (raised is not None) == exp_fail and (raised is None or isinstance(raised, errors.CheckError))
+            cls = ("rowerr" if first is not None else "clean") + "-" + ("endfail" if exp_fail else "endok")
+            return ok, "validate() raised %r; expected first row error %r, end-of-data failure %s" % (raised, first, exp_fail), cls, rows
         with patched(rf.smart_repr(), *rf.srows_patches()):
             reader = validio.Reader(cid, rows, on_error="yield", validate_until=lim)
             for the_pass in range(2 if twice else 1):
@@ -222,6 +313,9 @@ def build(tier, seed):
         confs.append((1, 3, [("count", 0, "<", 2), ("unique", [0])], ["c,d,DistinctCount,k0 < 2", "c,u,IsUnique,k0"], False))
         confs.append((1, 3, [("unique", [0])], ["c,u,IsUnique,k0"], True))
     confs = [c + ("choice",) for c in confs]
+    # the validate-only API (first error raised, end-of-data verdict when no row is rejected), limit symbolic
+    confs.append((1, 3, [("count", 0, "<=", 1)], ["c,d,DistinctCount,k0 <= 1"], False, "choice-validate"))
+    confs.append((1, 2, [("unique", [0]), ("count", 0, ">=", 2)], ["c,u,IsUnique,k0", "c,d,DistinctCount,k0 >= 2"], False, "choice-validate"))
     confs.append((1, 2, [("unique", [0])], ["c,u,IsUnique,k0"], False, "int"))
     confs.append((1, 2, [("count", 0, "<=", 1)], ["c,d,DistinctCount,k0 <= 1"], False, "int"))
     confs.append((2, 2, [("unique", [0, 1])], ["c,u,IsUnique,\"k0, k1\""], False, "pool"))
@@ -231,11 +325,15 @@ def build(tier, seed):
         confs.append((3, 2, [("unique", [0, 1, 2])], ["c,u,IsUnique,\"k0,k1,k2\""], False, "pool"))
     for nkeys, nrows, checks, check_rows, twice, keymode in confs:
         two = len(checks) > 1 and checks[0][0] == checks[1][0] == "unique"
+        api = "reader"
+        if keymode.endswith("-validate"):
+            keymode, api = keymode.split("-")[0], "validate"
         mk, rp = make(nkeys, nrows, checks, check_rows, twice=twice, sym_vals=(not two) and keymode == "choice",
-                      alphabet=(97, 98) if two else (97, 99), keymode=keymode)
-        queries.append(Query("C05/%dkeys%s/rows=%d/%s%s" % (nkeys, "" if keymode == "choice" else "-" + keymode, nrows,
-                                                           ";".join(c.split(",", 2)[2] for c in check_rows),
-                                                           "/twice" if twice else ""), "unique-distinct", mk,
+                      alphabet=(97, 98) if two else (97, 99), keymode=keymode, api=api)
+        queries.append(Query("C05/%dkeys%s/rows=%d/%s%s%s" % (nkeys, "" if keymode == "choice" else "-" + keymode, nrows,
+                                                             ";".join(c.split(",", 2)[2] for c in check_rows),
+                                                             "/twice" if twice else "", "/validate-api" if api == "validate" else ""),
+                             "unique-distinct", mk,
                              "%d key field(s) over {a,b,c} (c invalid), 1 value field (len<=2, valid iff len<=1), %d rows, "
                              "checks %r, header 0..1, limit none/0..%d%s" % (nkeys, nrows, check_rows, nrows + 1,
                                                                           ", same Reader iterated twice" if twice else ""),
@@ -252,7 +350,7 @@ def build(tier, seed):
             queries.append(Query("C05/1keys/rows=5/fixed=%s" % "".join(keys), "unique-distinct-5", mk,
                                  "5 rows with keys %s, value cells (len<=2), header, limit symbolic" % "".join(keys),
                                  budget_s=1200, per_path_timeout=90, replay=rp, functions=FUNCS, stubs=("S-ROWS", "S-FMT")))
-    return dict(queries=queries,
+    return dict(queries=queries, native=native_key_collisions,
                 assumptions=["key cells range over the alphabet {a,b,c}; the solver enumerates the key assignments "
                              "(hashing realises symbolic strings)"],
                 outside_claim=["more than 3 rows with symbolic keys / 5 rows with enumerated keys", "larger key alphabets",
